@@ -693,7 +693,18 @@ class Real:
         from beyond.frames.frames import Frame
         from beyond.dates import Date
         from beyond.propagators.base import Propagator
+        from beyond.frames import frames as _frames
         seen, vals, problems, keep = {}, [], [], []
+        clones = {}
+
+        def frame_str(x):
+            """registry objects by name; clones (pickle / deepcopy make new Frame objects, compared by identity) numbered by first visit"""
+            hill = type(x).__name__ == "HillFrame"
+            name = "Hill" if hill else x.name
+            if _frames.dynamic.get("Hill" if hill else x.name) is x:
+                return name
+            keep.append(x)
+            return f"{name}'{clones.setdefault(id(x), len(clones) + 1)}"
 
         def ident(key, obj):
             keep.append(obj)
@@ -716,7 +727,7 @@ class Real:
             if isinstance(x, Form):
                 return f"f:{x.name}"
             if isinstance(x, Frame):
-                return f"F:{'Hill' if type(x).__name__ == 'HillFrame' else x.name}"
+                return f"F:{frame_str(x)}"
             if isinstance(x, StateVector):
                 i, back = ident(id(x), x)
                 if back:
@@ -733,7 +744,7 @@ class Real:
                 else:
                     sb = f"B{bi}=<$>"
                     vals.append(np.asarray(x).tobytes())
-                return f"S{i}({'O' if isinstance(x, Orbit) else 'V'},{int(owned)},{sb},{ref(x._data)})"
+                return f"S{i}({'O' if isinstance(x, Orbit) else 'V'},{sb},{ref(x._data)})"
             if isinstance(x, Cov):
                 i, back = ident(id(x), x)
                 if back:
@@ -743,6 +754,8 @@ class Real:
                     vals.append(np.asarray(x).tobytes())
                     return f"C{i}(!,<$>)"
                 for part in (x.base, dd):
+                    if part is None:      # an unpickled array owns its memory
+                        continue
                     if id(part) in seen or ("covpart", id(part)) in seen:
                         problems.append("a covariance shares its buffer / dict with another object")
                     seen[("covpart", id(part))] = -1
@@ -750,8 +763,9 @@ class Real:
                 vals.append(np.asarray(x).tobytes())
                 fr = dd["frame"]
                 of = x.__dict__.get("_orb_frame")
-                frs = fr if isinstance(fr, str) else ref(fr)[2:]
-                return f"C{i}(<$>,{frs},{ref(of)[2:]},{ref(dd['orb'])})"
+                frs = fr if isinstance(fr, str) else frame_str(fr)
+                ofs = frame_str(of)
+                return f"C{i}(<$>,{frs},{ofs},{ref(dd['orb'])})"
             if isinstance(x, Man):
                 i, back = ident(id(x), x)
                 return back or f"M{i}={x.comment[1:]}"
